@@ -74,6 +74,9 @@ def run(repo, rep, tier):
     r6 = rep.rule('C06.R6', 'real formatting constants and branch order')
     r7 = rep.rule('C06.R7', 'datetime printer fields = datetime parser '
                   'fields (25 characters)')
+    r9 = rep.rule('C06.R9', 'every shape of real number the printer can '
+                  'write is in the reader language and in the DSP0201 '
+                  'syntax')
 
     # ---------------- R1 ---------------------------------------------------
     cimint = repo.cls(TYP, 'CIMInt')
@@ -562,6 +565,37 @@ def run(repo, rep, tier):
                         'special', TYP, br.lineno,
                         'NaN / INF / -INF spelling not handled for %s'
                         % tname)
+        # printer language of the branch (shape analysis, pwsa/strlang.py):
+        # every output shape must be in the reader's language (float(), used
+        # by unpack_numeric) and in the DSP0201 real syntax
+        from .. import strlang as SL
+        try:
+            spec_, outs = SL.outputs(list(br.body))
+        except SL.Unsupported as exc:
+            r9.undecided.append('%s: %s' % (tname, exc))
+            outs = []
+        for tin, tout in outs:
+            r9.sites += 1
+            smp = SL.samples(tout)
+            bad_f = [x for x in smp if not SL.FLOAT_DOMAIN.fullmatch(x)]
+            bad_d = [x for x in smp if not SL.DSP0201_REAL.fullmatch(x)]
+            ok = not bad_f and not bad_d
+            r9.ob(ok, 'atomic:%s:%s' % (tname, SL.show(tin)),
+                  {'type': tname, 'formatted_shape': SL.show(tin),
+                   'written_shape': SL.show(tout)})
+            if not ok:
+                rep.finding(
+                    r9, atom.qualname, '%s: %s -> %s' % (
+                        tname, SL.show(tin), SL.show(tout)),
+                    'not-readable' if bad_f else 'not-dsp0201', TYP,
+                    br.lineno,
+                    'a %s that the format writes as %s leaves the function '
+                    'as %s (e.g. %r), which %s'
+                    % (tname, SL.show(tin), SL.show(tout),
+                       (bad_f or bad_d)[0],
+                       'float() / unpack_numeric cannot read back' if bad_f
+                       else 'is not a DSP0201 real value (a digit must '
+                       'follow the decimal point)'))
         # string surgery on the formatted number keys on the exponent marker
         # alone: the G/E/g/e format writes 'E+NN' as well as 'E-NN', so a
         # separator such as 'E+' handles only one of the two signs
